@@ -1,5 +1,6 @@
 import Nsq.Model.Line
 import Nsq.Model.Guid
+import Nsq.Model.GuidClock
 import Nsq.Model.Num
 import Nsq.Model.PQ
 import Nsq.Model.Timing
@@ -128,6 +129,11 @@ def stepLine (line : String) : String :=
       let r := Nsq.Model.Guid.newGUID { nodeID := node, seq := seq, lastTs := lastTs, lastID := lastID } now
       s!"{r.2.1.toInt} {errName r.2.2} {r.1.seq.toInt} {r.1.lastTs.toInt} {r.1.lastID.toInt}"
     | _, _, _, _, _ => "bad-op"
+  | ["genids", node, seq, lastTs, lastID, t0, tss] =>
+    match bv64 node, bv64 seq, bv64 lastTs, bv64 lastID, bv64 t0, (tss.splitOn ",").mapM bv64 with
+    | some node, some seq, some lastTs, some lastID, some t0, some tss =>
+      Nsq.Model.GuidClock.genidsAnswer node seq lastTs lastID t0 tss
+    | _, _, _, _, _, _ => "bad-op"
   | ["hex", g] =>
     match bv64 g with
     | some g => bytesToString (Nsq.Model.Guid.hex g)
